@@ -643,6 +643,93 @@ def gen_pdu_of(gen, schema, cls, j):
     return v
 
 
+# ----------------------------------------------------------------------------- the frozen TS 38.413 types, fields taken by name
+class GoldenSchema(Schema):
+    """refamf/ngap_schema_golden.json (types) + refamf/ngap_roots_golden.json (root parameters): what Spec/NgapGolden.v
+    transcribes. Used to look for a failing input when the regenerated schema is no longer the frozen one: values are
+    generated over the frozen types and handed to the implementation *by field name*."""
+    _inst = None
+
+    def __init__(self):
+        base = os.path.join(C.VERIF, "refamf")
+        d = json.load(open(os.path.join(base, "ngap_schema_golden.json")))
+        self.types = d['types']
+        self.roots = json.load(open(os.path.join(base, "ngap_roots_golden.json")))
+        self.root = {r['Name']: r for r in self.roots}
+        for t in self.types.values():
+            for f in t.get('fields') or []:
+                f['p'] = parse_tag(f['tag'])
+
+    @classmethod
+    def get(cls, harness=None):
+        if cls._inst is None:
+            cls._inst = GoldenSchema()
+        return cls._inst
+
+
+def remap(src, dst, tname, v):
+    """the value tree [v] of type [tname], positional in schema [src], as the positional tree of schema [dst] with every
+    struct field and CHOICE alternative found by its name; NoValue when the two schemas do not have the same names/types there"""
+    ts = src.types[tname]; td = dst.types.get(tname)
+    if td is None or td['kind'] != ts['kind']: raise NoValue(tname)
+    k = ts['kind']
+    if k in ('ptr', 'slice'):
+        if td['elem'] != ts['elem']: raise NoValue(tname)
+        if v is None: return None
+        return remap(src, dst, ts['elem'], v) if k == 'ptr' else [remap(src, dst, ts['elem'], x) for x in v]
+    if k != 'struct':
+        return v
+    fs = ts.get('fields') or []; fd = td.get('fields') or []
+    ns = [f['name'] for f in fs]; nd = [f['name'] for f in fd]
+    if sorted(ns) != sorted(nd) or len(set(ns)) != len(ns): raise NoValue(tname)
+    out = [None] * len(fd)
+    if src.is_choice(ts):
+        if not dst.is_choice(td): raise NoValue(tname)
+        pres = int(v[0])
+        if pres <= 0 or pres >= len(fs): raise NoValue(tname)
+        j = nd.index(ns[pres])
+        if fd[j]['type'] != fs[pres]['type']: raise NoValue(tname)
+        out[0] = str(j) if isinstance(v[0], str) else j
+        out[j] = remap(src, dst, fs[pres]['type'], v[pres])
+        return out
+    for i, f in enumerate(fs):
+        j = nd.index(f['name'])
+        if fd[j]['type'] != f['type']: raise NoValue(tname)
+        out[j] = remap(src, dst, f['type'], v[i])
+    return out
+
+
+def golden_cases(S, rng, per_msg, per_root):
+    """(root name, golden root record, value over the frozen types, the same value by name for the current types, canonical hex)"""
+    Gs = GoldenSchema.get()
+    ref = Ref(Gs)
+    out = []
+    skipped = 0
+
+    def add(rname, vg, msg):
+        nonlocal skipped
+        r = Gs.root[rname]
+        if rname not in S.root:
+            skipped += 1; return
+        try:
+            hx = ref.encode(r['Type'], r['Params'], vg).hex()
+            vc = remap(Gs, S, r['Type'], vg)
+        except (Refuse, Frag, NoValue):
+            skipped += 1; return
+        out.append({"root": rname, "gvalue": vg, "value": vc, "expect": hx, "msg": msg, "wild": False})
+    for rep in range(per_msg):
+        for (cls, j, code, name) in ngap_messages(Gs):
+            try: vg = gen_pdu_of(Gen(Gs, rng), Gs, cls, j)
+            except NoValue: continue
+            add("NGAPPDU", vg, "%d/%s" % (cls, name))
+    for r in Gs.roots[1:]:
+        for rep in range(per_root):
+            try: vg = Gen(Gs, rng).gen(r['Type'], parse_tag(r['Params']))
+            except NoValue: continue
+            add(r['Name'], vg, r['Name'])
+    return out, skipped
+
+
 # ----------------------------------------------------------------------------- value comparison (Go representation remarks)
 def same_value(a, b):
     """equality up to: nil vs empty slice, unused low bits of a BIT STRING's last octet"""
